@@ -619,3 +619,64 @@ func (p *Prog) FlatFieldLoad(v ssa.Value) (FieldRef, bool) {
 
 // UsedAsValue reports whether h is referenced other than as the callee of a static call.
 func (p *Prog) UsedAsValue(h *ssa.Function) bool { return p.usedAsValue(h) }
+
+// Expansion is one instance of an instruction of a straight-line private
+// helper (a setter such as `func (s *state) setLast(v T) { s.Value = v }`): the
+// call site through which it executes and the arguments bound to the helper's
+// parameters there. For an instruction that is not in such a helper there is
+// one expansion: the instruction itself with no bindings.
+type Expansion struct {
+	At    ssa.Instruction
+	binds map[*ssa.Parameter]ssa.Value
+}
+
+// Sub replaces a helper parameter by the argument bound at the expansion's call site.
+func (e Expansion) Sub(v ssa.Value) ssa.Value {
+	for i := 0; i < 4; i++ {
+		prm, ok := v.(*ssa.Parameter)
+		if !ok {
+			return v
+		}
+		a, ok := e.binds[prm]
+		if !ok {
+			return v
+		}
+		v = a
+	}
+	return v
+}
+
+// Expand lists the instances of in. An instruction in a single-block private
+// helper executes exactly when the helper is called, so each call site is an
+// instance (followed upwards through further single-block helpers, depth 3).
+func (p *Prog) Expand(in ssa.Instruction) []Expansion {
+	return p.expand(in, map[*ssa.Parameter]ssa.Value{}, 0)
+}
+
+func (p *Prog) expand(in ssa.Instruction, binds map[*ssa.Parameter]ssa.Value, d int) []Expansion {
+	h := in.Parent()
+	self := []Expansion{{At: in, binds: binds}}
+	if h == nil || d > 3 || len(h.Blocks) != 1 || h.Parent() != nil || !p.PrivateHelper(h) {
+		return self
+	}
+	sites := p.Callers(h)
+	if len(sites) == 0 {
+		return self
+	}
+	var out []Expansion
+	for _, s := range sites {
+		args := s.Common().Args
+		if s.Common().IsInvoke() || len(args) != len(h.Params) {
+			return self
+		}
+		b := map[*ssa.Parameter]ssa.Value{}
+		for k, v := range binds {
+			b[k] = v
+		}
+		for i, prm := range h.Params {
+			b[prm] = args[i]
+		}
+		out = append(out, p.expand(s, b, d+1)...)
+	}
+	return out
+}
